@@ -269,10 +269,10 @@ theorem step_popOK {ar : Nat → Nat} {P P' : Pop} (op : GPOp) (hP : PopOK ar P)
           exact ⟨hP2, by simp; omega⟩
 
 /-- a sequence of steps, each admissible in the population it is applied to -/
-def runOps (ar : Nat → Nat) : Pop → List GPOp → Option Pop
+def runGPOps (ar : Nat → Nat) : Pop → List GPOp → Option Pop
   | P, [] => some P
   | P, op :: ops => match op.apply P with
-    | some P' => runOps ar P' ops
+    | some P' => runGPOps ar P' ops
     | none => none
 
 def AllAdmissible (ar : Nat → Nat) : Pop → List GPOp → Prop
@@ -282,14 +282,14 @@ def AllAdmissible (ar : Nat → Nat) : Pop → List GPOp → Prop
 /-- **C08, population clause, for every history**: whatever sequence of reproduction, mutation and crossover steps a GP
     run performs (any slots, points, grown branches), the forest stays a family of proper expression trees no two of
     which share a node -/
-theorem runOps_popOK {ar : Nat → Nat} : ∀ (ops : List GPOp) (P P' : Pop), PopOK ar P → 0 < P.next →
-    AllAdmissible ar P ops → runOps ar P ops = some P' → PopOK ar P' := by
+theorem runGPOps_popOK {ar : Nat → Nat} : ∀ (ops : List GPOp) (P P' : Pop), PopOK ar P → 0 < P.next →
+    AllAdmissible ar P ops → runGPOps ar P ops = some P' → PopOK ar P' := by
   intro ops
   induction ops with
-  | nil => intro P P' hP _ _ h; simp only [runOps, Option.some.injEq] at h; subst h; exact hP
+  | nil => intro P P' hP _ _ h; simp only [runGPOps, Option.some.injEq] at h; subst h; exact hP
   | cons op ops ih =>
     intro P P' hP hn hadm h
-    simp only [runOps] at h
+    simp only [runGPOps] at h
     cases hs : op.apply P with
     | none => simp [hs] at h
     | some P1 =>
@@ -372,7 +372,7 @@ theorem growMany_spec (cfg : GrowCfg) (k : Nat) : ∀ (n : Nat) (ds : List Nat) 
               simp only [List.getElem?_cons_succ] at ha hb
               exact hd i j a b (fun e => hij (by omega)) ha hb
 
-/-- the forest `_create_trees` builds is proper: the starting point of `runOps_popOK` -/
+/-- the forest `_create_trees` builds is proper: the starting point of `runGPOps_popOK` -/
 theorem growMany_popOK (cfg : GrowCfg) (k n : Nat) (ds : List Nat) (nid : Nat) (ts : List PNode) (d : List Nat) (m : Nat)
     (h : growMany cfg k n ds nid = some (ts, d, m)) : PopOK cfg.ar ⟨ts, nil, m⟩ := by
   obtain ⟨_, hwf, hr, hd⟩ := growMany_spec cfg k n ds nid ts d m h
@@ -401,7 +401,7 @@ example : PopOK cfgE.ar popE := by
     obtain ⟨ts, d, m⟩ := r
     exact growMany_popOK cfgE 2 3 drawsE 1 ts d m h
 example : popE.next = 11 ∧ popE.trees.map PNode.size = [3, 2, 5] := by decide
-example : (runOps cfgE.ar popE [.cross 0 2 1 2, .reproduce 1 0, .recordBest 2, .mutate 1 1 branchE]).map
+example : (runGPOps cfgE.ar popE [.cross 0 2 1 2, .reproduce 1 0, .recordBest 2, .mutate 1 1 branchE]).map
     (fun P' => (P'.trees.length, P'.best.isNil, P'.next)) = some (3, false, 891) := by decide
 example : (GPOp.mutate 1 1 branchE).admissible cfgE.ar popE :=
   ⟨wf_of_wfB (by decide), by decide⟩
